@@ -48,6 +48,13 @@ func c17Pinned(name string) c17Case {
 			{"map_to_index": map[string]any{"by_name": "S.flags"}},
 			{"unfold_boolean": map[string]any{"by_name": "S.flags", "true_as": "on", "false_as": "off"}},
 		}
+	case "sf-opts-after-append":
+		s.AddObject(ast.NewObject("p", "I", ast.NewStruct(ast.NewStructField("x", ast.String()))))
+		s.AddObject(ast.NewObject("p", "L", ast.NewStruct(ast.NewStructField("items", ast.NewArray(ast.NewRef("p", "I"))))))
+		f.Options = []map[string]any{
+			{"array_to_append": map[string]any{"by_name": "L.items"}},
+			{"struct_fields_as_options": map[string]any{"by_name": "L.items"}},
+		}
 	default:
 		return c17Case{}
 	}
@@ -55,4 +62,4 @@ func c17Pinned(name string) c17Case {
 	return cs
 }
 
-var c17PinnedNames = []string{"dup-option-default", "dup-builder-default", "dismissed", "rename-args-constraint", "promote-array-to-append", "merge-rename-arguments", "map-index-unfold"}
+var c17PinnedNames = []string{"dup-option-default", "dup-builder-default", "dismissed", "rename-args-constraint", "promote-array-to-append", "merge-rename-arguments", "map-index-unfold", "sf-opts-after-append"}
